@@ -19,6 +19,10 @@ for d in todo:
     else:
         meta = json.load(open(os.path.join(base, d, "meta.json")))
         props = meta["caught_by"] or [meta["property"]]
+        if meta.get("tier") == "thorough" and "--with-thorough" not in args:
+            # caught by a thorough-tier input only (see its meta.json): not part of the quick regression
+            print(d, "skipped (thorough tier only)", flush=True)
+            continue
     r = subprocess.run([os.path.join(ROOT, "seedtest.py"), patch] + props, text=True, stdout=subprocess.PIPE, stderr=subprocess.STDOUT)
     try:
         res = json.loads(r.stdout.strip().splitlines()[-1])
